@@ -366,6 +366,11 @@ def diff(a, b):
             return ('num', c)
         if len(m) == 1 and c == 1:
             return m[0]
+        if len(m) >= 1 and c > 0 and c.denominator == 1:
+            t = None
+            for a in m:
+                t = a if t is None else ('*', t, a)
+            return t if c == 1 else ('*', ('num', c), t)
     return plain
 
 
@@ -449,6 +454,16 @@ def sel(v, i):
                 return sel(v[1], i)
         if k == 'vslice':
             return sel(v[1], add(v[2], i))
+        if k == 'vcomp' and len(v) == 7 and v[5] == TRUE and \
+                not (isinstance(v[6], tuple) and v[6] and v[6][0] == 'tuple'):
+            # ('vcomp', v0, k, lo, hi, TRUE, x): v0 followed by x(lo), x(lo+1), ... (one element per step)
+            n0_ = size(v[1])
+            if n0_ == ZERO:
+                return subst(v[6], {v[2]: add(v[3], i)})
+            if is_num(n0_) and is_num(i):
+                if i[1] < n0_[1]:
+                    return sel(v[1], i)
+                return subst(v[6], {v[2]: add(v[3], sub(i, n0_))})
         if k == 'vcopy':
             # ('vcopy', dst, c, src, a, b): dst with [c, c + b - a) replaced by src[a .. b)
             inside = land(cmp('<=', v[2], i), cmp('<', i, add(v[2], diff(v[5], v[4]))))
